@@ -92,6 +92,8 @@ def run_history(fam, kind, impl, rng, rec, h):
                        judge='contents')
     if impl == 'py' and fam.vc == 'F':
         ls.g.values = [v for v in ls.g.values if families.f32(v) == v]
+    ls.fault_conn = conn
+    ls.p_refuse = 0.03
     committed = ls.m.copy()
     tx_events = set()
     n = rng.randint(40, 160) if sizes else rng.randint(30, 80)
